@@ -143,6 +143,16 @@ func SimC04(c *CheckCtx, i int, r *Rng) error {
 		}
 	}
 	eps := drawEntrypoints(r, m)
+	if clash {
+		// (the package that mentions both clashing paths takes part, unless the next lines say otherwise)
+		has := false
+		for _, e := range eps {
+			has = has || e == 2
+		}
+		if !has {
+			eps = append(eps, 2)
+		}
+	}
 	if clash && r.P(0.35) {
 		// the package that mentions only one of the two clashing paths, generated without - or, where it
 		// sorts first, before - the package that mentions both
